@@ -44,7 +44,7 @@ MINIMUMS = {
     'quick': {'evaluations': 500, 'validated': 400, 'construct:splat': 80, 'construct:partial': 80,
               'construct:arg_factory': 40, 'construct:inline-call': 60, 'construct:noninline-call': 30,
               'construct:exempt': 40, 'construct:with_tags': 40, 'construct:closure': 40,
-              'construct:control-flow': 60, 'construct:method': 30, 'construct:lambda': 20, 'construct:program-call-by-keyword': 40},
+              'construct:control-flow': 60, 'construct:method': 30, 'construct:lambda': 20, 'construct:program-call-by-keyword': 40, 'construct:builtin-named-callable': 100},
     'thorough': {'evaluations': 1000},
 }
 
@@ -54,11 +54,16 @@ from fiddle import arg_factory
 from fiddle.experimental import auto_config
 from vt import kinds as K, tags as T
 
+# user callables whose names shadow builtins (what a name refers to is decided at run time)
+filter = K.two
+format = K.three
+sum = K.Base
+
 '''
 
 
 def plan(tier):
-  n = 45 if tier == 'quick' else 4500
+  n = 75 if tier == 'quick' else 4500
   return [{'name': f's{i}', 'kind': 'main', 'n': n, 'start': i * n, 'timeout': 3000}
           for i in range(16)]
 
@@ -75,6 +80,10 @@ CALLS = [
     ('K.node', ['a', 'b', 'c'], 0),     # positional slot 0 is uid: keywords only
     ('K.target3', ['a', 'b'], 2),
     ('K.DC', ['a', 'b'], 2),
+    # configurable callables bound to module-level names that are spelled like builtins
+    ('filter', ['x', 'y'], 2),
+    ('format', ['a', 'b', 'c'], 3),
+    ('sum', ['x', 'child'], 2),
 ]
 
 
@@ -127,6 +136,8 @@ class Prog:
     rng = self.rng
     name, kws, npos = rng.choice(CALLS)
     self.ncalls += 1
+    if '.' not in name:
+      self.constructs.add('builtin-named-callable')
     args = []
     used = set()
     k = rng.randint(0, min(npos, 2))
